@@ -36,7 +36,7 @@ func (lossy) Name() string    { return "lossy-channel" }
 func (lossy) Props() []string { return []string{"C06"} }
 func (lossy) Runs(tier string) int64 {
 	if tier == "thorough" {
-		return 60000
+		return 300000
 	}
 	return 1500
 }
@@ -226,7 +226,8 @@ func (lossy) Execute(scAny any, keepLog bool) *core.Outcome {
 		out.Probe("baseline-mismatch")
 		return out
 	}
-	for pid, w := range want {
+	for _, pid := range pidKeys(want) {
+		w := want[pid]
 		if len(base[pid]) != len(w) {
 			out.Probe("baseline-mismatch")
 			return out
